@@ -8,8 +8,8 @@ namespace PvProofs.Lemmas.Trig
 open PvModel.Trig
 
 /-- The caps hold for every store, well formed or not. -/
-theorem processLoop_caps (oog : Nat → Nat → Bool) : ∀ (n gc : Nat) (s s' : State) (xs : List Exec),
-    processLoop oog n gc s = some (s', xs) →
+theorem processLoop_caps (cost : Nat → Nat → Nat) : ∀ (n gc : Nat) (s s' : State) (xs : List Exec),
+    processLoop cost n gc s = some (s', xs) →
     xs.length ≤ n ∧ (xs ≠ [] → gc + (xs.map (·.gas)).sum ≤ MaximumQueueGas)
   | 0, gc, s, s', xs, h => by simp only [processLoop] at h; cases h; simp
   | n + 1, gc, s, s', xs, h => by
@@ -23,7 +23,7 @@ theorem processLoop_caps (oog : Nat → Nat → Bool) : ∀ (n gc : Nat) (s s' :
     next hcap =>
     split at h
     · next s2 rest hp =>
-      obtain ⟨h1, h2⟩ := processLoop_caps oog n (gc + g) _ s2 rest hp
+      obtain ⟨h1, h2⟩ := processLoop_caps cost n (gc + g) _ s2 rest hp
       cases h
       refine ⟨by simp; omega, fun _ => ?_⟩
       simp only [List.map_cons, List.sum_cons]
